@@ -115,6 +115,8 @@ def serialisations(r, native):
             'compact': json.dumps(doc, separators=(',', ':')),
             'indent1': json.dumps(doc, indent=1),
             'indent2': json.dumps(doc, indent=2),
+            'indent-tab': json.dumps(doc, indent='\t'),
+            'spaced-wide': json.dumps(doc, separators=(' ,  ', ' :  ')),
             'indent4-unicode': json.dumps(doc, indent=4,
                                           ensure_ascii=False)}
 
